@@ -150,3 +150,73 @@ def engine():
 
 CONTRACTS = [ExportPrefix(), ExportPrefixed(), ExportParamValue(), DictifyParams(), ExportPrimitiveParams()]
 VERIFY = [CONTRACTS[0], CONTRACTS[2], CONTRACTS[4]]
+
+
+# ---------------------------------------------------------------------------------------------------------------------
+# export_prefixed proved over exact rationals (the mantissa is an arbitrary real; finite Decimals are exact rationals)
+# ---------------------------------------------------------------------------------------------------------------------
+class ExportPrefixedProved(Contract):
+    """export_prefixed(pref): never raises; the prefix is export_prefix(pref.prefix); a mantissa that is an integer
+    within the int64 range goes out as exactly that integer, anything else as its decimal string - so the exported value
+    is the number, whatever its size."""
+    key = "hdl21.proto.exporting:export_prefixed"
+    props = ("C13",)
+    pure = False
+    raises = ()
+    returns = "ref"
+    result_classes = (vlsir.Prefixed,)
+
+    def scenarios(self, eng):
+        def setup(eng, st):
+            p = sym_ref(st, "pref", (Prefixed,))
+            z = z3.Int("pre")
+            st.assume(z3.And(z >= 0, z < len(list(Prefix))))
+            eng.write_field(st, p, "prefix", SEnum(z, Prefix))
+            return {"pref": p}
+        yield Scenario("any-mantissa-any-prefix", setup)
+
+    def p_value(self, eng, st0, st, a, res):
+        if not isinstance(res, SRef):
+            return False
+        n = st0.heap.get("Prefixed.number", a.pref.z)
+        isint = z3.ToReal(z3.ToInt(n)) == n
+        fits = z3.And(n >= -(2 ** 63), n < 2 ** 63)
+        i64 = st.heap.get("int64_value", res.z)
+        sv = st.heap.get("string_value", res.z)
+        dstr = z3.Function("decimal_str", z3.RealSort(), z3.StringSort())
+        which = st.heap.get("$oneof_number", res.z) if "$oneof_number" in st.heap.schema else None
+        return z3.And(z3.Implies(z3.And(isint, fits), z3.And(z3.ToReal(i64) == n, sv == z3.StringVal(""))),
+                      z3.Implies(z3.Not(z3.And(isint, fits)), z3.And(sv == dstr(n), i64 == 0)))
+
+    def p_prefix(self, eng, st0, st, a, res):
+        if not isinstance(res, SRef):
+            return False
+        pre = eng.read_field(st0, a.pref, "prefix")[0][1]
+        got = eng.read_field(st, res, "prefix")[0][1]     # (vlsir.Prefixed shares the class name: same per-class key)
+        if not isinstance(got, (int, SInt)):
+            return False
+        got = zint(got)
+        return z3.And([z3.Implies(pre.z == k, got == int(getattr(vlsir.SIPrefix, m.name))) for k, m in enumerate(Prefix)])
+    posts = property(lambda self: [("value-exact", self.p_value), ("prefix-through-export_prefix", self.p_prefix)])
+
+
+class ExportPrefixEnum(ExportPrefix):
+    """export_prefix as a callee (proved above): the VLSIR enum number of the prefix of the same name"""
+    returns = "int"
+
+    def scenarios(self, eng):
+        return []
+
+    def p_num(self, eng, st0, st, a, res):
+        return z3.And([z3.Implies(a.pre.z == k, zint(res) == int(getattr(vlsir.SIPrefix, m.name)))
+                       for k, m in enumerate(Prefix)])
+    posts = property(lambda self: [("same-name", self.p_num)])
+
+
+def prefixed_engine():
+    schema = dict(SCHEMA_EXTRA)
+    schema.update({"Prefixed.number": "real", "Prefixed.prefix": "py", "vlsir_prefix": "int"})
+    return mk_engine(contracts=[ExportPrefixEnum()], schema_extra=schema)
+
+
+VERIFY_PREFIXED = [ExportPrefixedProved()]
